@@ -415,6 +415,7 @@ class Report:
                             "skipped_outside_precondition": self.conf["skipped"],
                             "failures": len(self.conf["failures"])},
             "finite_exhaustive_checks_on_untouched_code": self.finite,
+            "case_wall_s": {r["case"]: r["wall_s"] for r in self.results},
             "rewrites": _merge_rewrites(self.results),
             "extra_steps": [{k: v for k, v in e.items() if k not in ("violations",)} for e in self.extra],
             "known_findings_printed": sorted({f["raw"] for f, _ in self.known}),
